@@ -151,6 +151,62 @@ class CumSum(OpDef):
         return tape.apply("cumsum", nids, {"axis": p.get("axis")}, const)
 
 
+class CumProd(CumSum):
+    name = "cumprod"
+    exact = False
+
+    def np(self, a, p):
+        return np.cumprod(a[0], axis=p.get("axis"))
+
+    def mg(self, mg, spell, a, p, kw):
+        if spell == "m":
+            return a[0].cumprod(axis=p.get("axis"), **kw)
+        if spell == "n" and not kw:
+            return np.cumprod(a[0], axis=p.get("axis"))
+        return mg.cumprod(a[0], axis=p.get("axis"), **kw)
+
+    def tape(self, tape, nids, p, const, vals):
+        return tape.apply("cumprod", nids, {"axis": p.get("axis")}, const)
+
+    def domain_ok(self, a, p):
+        x = np.asarray(a[0], dtype=np.float64)
+        return bool(np.all(np.abs(x) > 0.2) and np.all(np.abs(x) < 3))
+
+
+class Norm(OpDef):
+    """mg.linalg.norm: vector p-norms along one axis (or of a 1-d operand)"""
+
+    name = "norm"
+    nin = 1
+    spellings = ("f",)
+
+    def np(self, a, p):
+        return np.asarray(np.linalg.norm(a[0], ord=p.get("ord"), axis=p.get("axis"), keepdims=bool(p.get("keepdims"))))
+
+    def mg(self, mg, spell, a, p, kw):
+        return mg.linalg.norm(a[0], ord=p.get("ord"), axis=p.get("axis"), keepdims=bool(p.get("keepdims")), **kw)
+
+    def tape(self, tape, nids, p, const, vals):
+        o = p.get("ord") or 2
+        ax, kd = p.get("axis"), bool(p.get("keepdims"))
+        c = lambda x: tape.leaf(np.asarray(float(x)), True)  # noqa: E731
+        if o == 1:
+            n1 = tape.apply("ew1", nids, {"fn": "abs"}, const)
+            return tape.apply("reduce", [n1], {"fn": "sum", "axis": ax, "keepdims": kd}, const)
+        if o == 2:
+            n1 = tape.apply("ew1", nids, {"fn": "square"}, const)
+            n2 = tape.apply("reduce", [n1], {"fn": "sum", "axis": ax, "keepdims": kd}, const)
+            return tape.apply("ew1", [n2], {"fn": "sqrt"}, const)
+        n1 = tape.apply("ew1", nids, {"fn": "abs"}, const)
+        n2 = tape.apply("ew2", [n1, c(o)], {"fn": "power"}, const)
+        n3 = tape.apply("reduce", [n2], {"fn": "sum", "axis": ax, "keepdims": kd}, const)
+        return tape.apply("ew2", [n3, c(1.0 / o)], {"fn": "power"}, const)
+
+    def domain_ok(self, a, p):
+        x = np.asarray(a[0], dtype=np.float64)
+        return bool(x.size and np.all(np.abs(x) > 0.1))
+
+
 class MatMul(OpDef):
     name = "matmul"
     nin = 2
@@ -463,6 +519,7 @@ for _n, _f, _dom in [
     ("arccsch", lambda a: np.arcsinh(1 / a), _far(0.2)),
 ]:
     _reg(EW1(_n, _f, _n, spellings=("f",), domain=_dom))
+_reg(EW1("sinc", np.sinc, "sinc", domain=lambda a: np.abs(a) > 0.1))
 _reg(EW2("arctan2", np.arctan2, "arctan2", domain=lambda a, b: np.all(a * a + b * b > 0.05)))
 _reg(EW2("logaddexp", np.logaddexp, "logaddexp", domain=lambda a, b: np.all(np.abs(a) < 20) and np.all(np.abs(b) < 20)))
 _reg(EW2("logaddexp2", np.logaddexp2, "logaddexp2", domain=lambda a, b: np.all(np.abs(a) < 20) and np.all(np.abs(b) < 20)))
@@ -500,6 +557,8 @@ _reg(Reduce("min"))
 _reg(Reduce("var", domain=lambda a, p: a.size > 1))
 _reg(Reduce("std", domain=lambda a, p: a.size > 1 and np.all(np.std(a, axis=_ax(p.get("axis")), ddof=0) > 0.05)))
 _reg(CumSum())
+_reg(CumProd())
+_reg(Norm())
 _reg(MatMul())
 _reg(MultiMatmul())
 _reg(Einsum())
